@@ -5,11 +5,12 @@ C(m, a, s) == [m |-> m, a |-> a, s |-> s]
 Ram0 == [i \in 0..31 |-> 0]
 Board0 == [ram |-> Ram0, nick |-> "Lab", m1 |-> FALSE, m2 |-> FALSE, res |-> 1, volt |-> 300, p1 |-> 0, p2 |-> 0]
 BoardsOne == {Board0}
+BoardsNick == {Board0, [Board0 EXCEPT !.nick = ""]}
 BoardsMotor == {[Board0 EXCEPT !.m1 = a, !.m2 = b, !.res = r] : a \in BOOLEAN, b \in BOOLEAN, r \in 1..5}
 \* one representative call per public request method (C04 / C05): every primitive kind and every program shape
 AllMethods ==
   { C("command", <<>>, "SM,100,0,0"), C("command", <<>>, "H"), C("command", <<>>, "S,5"),
-    C("query", <<>>, "QX"), C("query", <<>>, "V"), C("query", <<>>, "Q,1"),
+    C("query", <<>>, "QX"), C("query", <<>>, "V"), C("query", <<>>, "Q,1"), C("query", <<>>, "QT"),
     C("query_statusbyte", <<>>, ""), C("reboot", <<>>, ""), C("bootload", <<>>, ""),
     C("query_nickname", <<>>, ""), C("write_nickname", <<>>, "Axi"),
     C("var_write", <<7, 3>>, ""), C("var_read", <<3>>, ""), C("var_write_int32", <<-2, 4>>, ""), C("var_read_int32", <<4>>, ""),
